@@ -608,7 +608,11 @@ class DateTime(Element):
 
             gmt_offset_hours = utils.TZS[tz_name]
 
-        return utils.gmt_offset(gmt_offset_hours, int(minutes or 0))
+        gmt_offset = utils.gmt_offset(gmt_offset_hours, int(minutes or 0))
+        if gmt_offset_hours == 0 and (hours or "").startswith("-"):
+            # int("-0") loses the sign; an offset such as -0.30 is west of GMT
+            gmt_offset = -gmt_offset
+        return gmt_offset
 
     def normalize_to_gmt(self, value, gmt_offset):
         # Adjust timezone to GMT/UTC
